@@ -198,11 +198,32 @@ template<int D> void one(Case& cs) {
 		exercise(std::forward<decltype(va)>(va), std::forward<decltype(vb)>(vb), vm, vmb, ra, aliased ? ra : rb, pa, aliased ? pa : pb, c); });
 }
 
+// Non-modifying algorithms over the ROWS of two 2-D arrays of different static types (int rows against long rows, read-only reference rows against array rows): the rows are
+// compared with `==` as independent values would be - equal only when they have the same length and the same elements - so std::equal / mismatch / find_if / count_if give the
+// results of the same calls over std::vector<std::vector<>> operands, also when every row of one operand is a proper PREFIX of the corresponding row of the other.
+static void hetero_rows_probe(Case& c) {
+	Rng& g = c.rng; L const r = g.in(1, 3), p = g.in(1, 3); bool const samelen = g.chance(1, 3); L const q = samelen ? p : p + g.in(1, 2); bool const differ = g.chance(1, 3); int const form = int(g.below(2));
+	describe("hetero-rows probe " + std::to_string(r) + "x" + std::to_string(p) + " vs " + std::to_string(r) + "x" + std::to_string(q) + (differ ? " one element differs" : " prefix rows") + (form ? " int-const-ref~int" : " int~long")); sig_mix("hetero-rows"); sig_mix(std::uint64_t((samelen ? 1 : 0) + 2 * (differ ? 1 : 0) + 4 * form)); op("hetero-rows"); count("hetero-rows-probes");
+	std::vector<std::vector<long>> ma, mb; ma.assign(std::size_t(r), std::vector<long>(std::size_t(p), 0L)); mb.assign(std::size_t(r), std::vector<long>(std::size_t(q), 0L));
+	for(L i = 0; i < r; ++i) for(L j = 0; j < q; ++j) { long v = long(g.below(3)); mb[std::size_t(i)][std::size_t(j)] = v; if(j < p) ma[std::size_t(i)][std::size_t(j)] = v; }
+	if(differ) { L i = g.below(r), j = g.below(p); ma[std::size_t(i)][std::size_t(j)] += 5; }
+	multi::array<int, 2> A({r, p}); multi::array<long, 2> B({r, q}); multi::array<int, 2> Bi({r, q});
+	for(L i = 0; i < r; ++i) { for(L j = 0; j < p; ++j) A[i][j] = int(ma[std::size_t(i)][std::size_t(j)]); for(L j = 0; j < q; ++j) { B[i][j] = mb[std::size_t(i)][std::size_t(j)]; Bi[i][j] = int(mb[std::size_t(i)][std::size_t(j)]); } }
+	auto run = [&](auto const& X, auto const& Y, char const* kp) { std::string const K = std::string("C03:hetero-rows:") + kp + ":";
+		bool const me = std::equal(ma.begin(), ma.end(), mb.begin()); bool const ge = std::equal(X.begin(), X.end(), Y.begin()); if(ge != me) violation(K + "equal", std::string("std::equal over the rows returned ") + (ge ? "true" : "false") + ", over vectors of vectors " + (me ? "true" : "false"));
+		auto mm = std::mismatch(ma.begin(), ma.end(), mb.begin()).first - ma.begin(); auto gm = std::mismatch(X.begin(), X.end(), Y.begin()).first - X.begin(); if(L(gm) != L(mm)) violation(K + "mismatch", "std::mismatch stops at row " + std::to_string(L(gm)) + ", over vectors of vectors at row " + std::to_string(L(mm)));
+		auto mf = std::find_if(mb.begin(), mb.end(), [&](auto const& row) { return ma[0] == row; }) - mb.begin(); auto gf = std::find_if(Y.begin(), Y.end(), [&](auto const& row) { return X[0] == row; }) - Y.begin(); if(L(gf) != L(mf)) violation(K + "find_if", "std::find_if(row == first row of the other operand) stops at row " + std::to_string(L(gf)) + ", over vectors of vectors at row " + std::to_string(L(mf)));
+		auto mc = std::count_if(mb.begin(), mb.end(), [&](auto const& row) { return row == ma[0]; }); auto gc = std::count_if(Y.begin(), Y.end(), [&](auto const& row) { return row == X[0]; }); if(L(gc) != L(mc)) violation(K + "count_if", "std::count_if counts " + std::to_string(L(gc)) + " rows, over vectors of vectors " + std::to_string(L(mc))); };
+	if(form == 0) run(A, B, "int~long"); else { multi::array_ref<int const, 2> AR(A.extensions(), A.data_elements()); run(AR, Bi, "int-const-ref~int"); }
+	nontrivial(true);
+}
+
 int main(int argc, char** argv) {
 	return main_loop(argc, argv, [&](Case& c) {
 		static bool init = false; if(!init) { init = true; auto& a = st().args;
 			for(std::size_t i = 0; i < a.size(); ++i) { auto val = [&] { return i + 1 < a.size() ? std::atol(a[i + 1].c_str()) : 0; };
 				if(a[i] == "--maxext") MAXEXT = int(val()); else if(a[i] == "--vals") VALS = int(val()); else if(a[i] == "--alg") ONLY_ALG = int(val()); } }
+		if(c.k % 25 == 11) { hetero_rows_probe(c); return; }
 #ifdef C03_D
 		one<C03_D>(c);
 #else
